@@ -241,8 +241,10 @@ class Model:
         ch = self.pre.channels.get(name)
         if ch is None or ch.in_eom() or ch.is_dmm:
             return None
+        from mc.worlds import programmed_post
+
         pl = make_pulse(spec)
-        return self._add(name, pl.duration, float(pl.phase), float(pl.post_phase_shift), protocol)
+        return self._add(name, pl.duration, float(pl.phase), programmed_post(spec), protocol)  # the shift as written by the caller
 
     def add_dmm(self, op):
         from mc.worlds import make_wf
